@@ -54,6 +54,7 @@ class _Func:
         self.params = cstmt.params_of(f.header)
         self.body = body
         self.fn = cstmt.Fn(body)
+        self.fn.params = self.params
 
 
 # the functions the property is about: a call of one of them is an anchor of a rule, never an extracted piece of another function
@@ -268,11 +269,12 @@ def _r6(ctx):
                                                  r"|\bcv_y_\s*=\s*N_VMake_Serial\s*\([^;]*,\s*" + ab + r"\s*[,)]", body)]
         init = [m.start() for m in re.finditer(r"\bCVodeInit\s*\(\s*cv_mem_\s*,\s*\w+\s*,\s*[\w.]+\s*,\s*cv_y_\s*\)", body)]
         copied = re.search(r"N_VGetArrayPointer\w*\s*\(\s*cv_y_\s*\)|NV_DATA_S\s*\(\s*cv_y_\s*\)\s*\[|NV_Ith_S\s*\(\s*cv_y_", body)
-        ok = len(alias) == 1 and len(init) == 1 and alias[0] < init[0]
+        ok = bool(alias) and len(init) == 1 and min(alias) < init[0]
         key = f"cvode/{mth}:Solve:cv_y_ wraps ab"
         if ok:
             ctx.ok("R6", key, (CV, 0), f"N_VSetArrayPointer({ps[0] if ps else 'ab'}, cv_y_) precedes CVodeInit(cv_mem_, Fex, t0, cv_y_): what HandleError writes into the caller's array is the integrator's state")
-        elif copied or (len(alias) == 1 and len(init) == 1) or len(alias) > 1:
+        elif copied or (alias and len(init) == 1):
+            # positive evidence: the vector's own data is written element-wise, or the integrator is initialised before the aliasing
             ctx.bad("R6", key, (CV, 0),
                     "cv_y_ is not pointed at the caller's array before CVodeInit: HandleError resets `ab` (flag -6: back to ab_init_) but CVodeReInit restarts from cv_y_'s own copy -- "
                     "the interval is integrated from the partially advanced state and Solve reports success",
@@ -413,8 +415,12 @@ def _checkflag(toks):
 
 
 def _relevant(F, g, names):
-    """can the guard say anything about `names`?  Only when it mentions one of them or a local computed in this function."""
-    return any(t in names or t in F.defs for t in g[1] if cstmt.IDENT.match(t))
+    """can the guard say anything about `names`?  When it mentions one of them or a local computed in this function -- or a name
+    this function does not define at all and that is not a parameter / named constant (a member another function may have set
+    from the flag: nothing is known about it)."""
+    known = set(getattr(F, "params", None) or ()) | set(CONSTS) | {"NEQUATIONS", "errfp_", "true", "false", "NULL", "nullptr"}
+    return any(t in names or t in F.defs or (t not in known and not t.isupper()) for j, t in enumerate(g[1])
+               if cstmt.IDENT.match(t) and not (j + 1 < len(g[1]) and g[1][j + 1] == "(") and t not in cstmt.CAST_TYPES)
 
 
 def _bare(tokens) -> str:
@@ -521,8 +527,11 @@ def _r2_handle_error(ctx, label, F, FLAG):
     ladder = [s for s, c in F.seq if s[0] in ("for", "while", "dowhile") and any(_is_call(x, "CVodeReInit") for x, _ in cstmt.walk(s))]
     if not ladder:
         last = F.body[1][-1] if F.body[0] == "block" and F.body[1] else ("?",)
-        ctx.check(last[0] == "return" and cstmt.value(last[1], CONSTS) == 1, "R2", key, (CV, 0),
-                  "when all levels are exhausted the function returns NAUNET_FAIL", found=cstmt.txt(last[1]) if last[0] == "return" else last[0])
+        val = cstmt.value(last[1], CONSTS) if last[0] == "return" else None
+        if val in (0, 1):
+            ctx.check(val == 1, "R2", key, (CV, 0), "when all levels are exhausted the function returns NAUNET_FAIL", found=cstmt.txt(last[1]))
+        else:
+            ctx.unrec("R2", key, (CV, 0), f"the function does not end in a plain `return NAUNET_FAIL` / `return NAUNET_SUCCESS` ({last[0]}): the last exit is not understood")
         return
     ends = {}
     try:
@@ -717,8 +726,13 @@ def _r3_ladder(ctx, label, F, FLAG, AB, DT, T0):
                     + f", not into {T0}: at the next level the recoverable branch subtracts an unchanged {T0} (= {kept if kept != T0 else 'its value at the re-initialisation'}) from the time left -- "
                     "the part already integrated is integrated again from the state reached, and Solve reports success",
                     expected=f"{FLAG} = CVode(cv_mem_, tout, cv_y_, &{T0}, CV_NORMAL)", found=f"{cv[0]} = CVode({', '.join(args)})")
+        elif okc:
+            ctx.ok("R3", f"{label}:CVode call", where, f"{FLAG} = CVode(cv_mem_, tout, cv_y_, &{T0}, CV_NORMAL): progress is reported into {T0}")
+        elif len(args) == 5 and args[0] == "cv_mem_" and args[2] == "cv_y_" and args[3] == "&" + T0 and args[4] in ("CV_ONE_STEP", "2") and cv[0] == FLAG:
+            ctx.bad("R3", f"{label}:CVode call", where, "CVode is asked for ONE internal step (CV_ONE_STEP), not to integrate up to the target of the sub-step: the level ends long before the time left is covered",
+                    expected=f"{FLAG} = CVode(cv_mem_, tout, cv_y_, &{T0}, CV_NORMAL)", found=f"{cv[0]} = CVode({', '.join(args)})")
         else:
-            ctx.check(okc, "R3", f"{label}:CVode call", where, f"{FLAG} = CVode(cv_mem_, tout, cv_y_, &{T0}, CV_NORMAL): progress is reported into {T0}", found=f"{cv[0]} = CVode({', '.join(args)})")
+            ctx.unrec("R3", f"{label}:CVode call", where, f"the CVode call of the sub-step loop is not in a shape this rule understands: {cv[0]} = CVode({', '.join(args)})")
         G = post.subst(cstmt.strip_casts(cv[2][1])) if len(cv[2]) > 1 else "?"
         Gt = cstmt.tokenize(G)
     except cstmt.Unknown as ex:
@@ -840,11 +854,13 @@ def _r3_ladder(ctx, label, F, FLAG, AB, DT, T0):
         args = [cstmt.norm(a) for a in rcall[2]]
         t_arg = fin.subst(cstmt.strip_casts(rcall[2][1])) if len(rcall[2]) == 3 else "?"
         z = cstmt.same_value(t_arg, "0")
-        okr = len(args) == 3 and args[0] == "cv_mem_" and args[2] == "cv_y_" and z is True
-        if z is None and len(args) == 3:
+        shape = len(args) == 3 and args[0] == "cv_mem_" and args[2] == "cv_y_"
+        if not shape:
+            ctx.unrec("R3", f"{label}:re-initialisation", where, f"CVodeReInit({', '.join(args)}) is not called on (cv_mem_, time, cv_y_): not understood")
+        elif z is None:
             ctx.unrec("R3", f"{label}:re-initialisation", where, f"cannot follow the restart time `{t_arg}`")
         else:
-            ctx.check(okr, "R3", f"{label}:re-initialisation", where, f"the integrator restarts at time 0 from cv_y_ (= {AB}): CVodeReInit(cv_mem_, 0, cv_y_)", found=f"CVodeReInit({', '.join(args)}) with time = {t_arg}")
+            ctx.check(z is True, "R3", f"{label}:re-initialisation", where, f"the integrator restarts at time 0 from cv_y_ (= {AB}): CVodeReInit(cv_mem_, 0, cv_y_)", found=f"CVodeReInit({', '.join(args)}) with time = {t_arg}")
         break
 
 
@@ -988,23 +1004,69 @@ def _r2_solve(ctx, label, mth):
     T = ca[3][1:] if len(ca) == 5 and ca[3].startswith("&") else None
     ok = cvi < hei and T is not None and ca == ["cv_mem_", DT, "cv_y_", "&" + T, "CV_NORMAL"] and ha == [cv[0], AB, DT, T] \
         and not F.written_between({cv[0], T, DT}, cvi, hei)
-    ctx.check(ok, "R2", f"{label}:Solve:HandleError receives the flag", (CV, 0), f"flag = HandleError({cv[0]}, {AB}, {DT}, {T}) right after {cv[0]} = CVode(cv_mem_, {DT}, cv_y_, &{T}, ..)",
-              expected="the flag, the state, the interval and the time CVode reached", found=f"CVode({', '.join(ca)}) then HandleError({', '.join(ha)})")
+    known = set(fn.params) | cstmt.declared_locals(fn.body)
+
+    def plain(e):
+        """an argument this rule understands although it is not the expected one: numbers and locals / parameters of Solve combined
+        by arithmetic (no call, no member access, no indexing) -- a DIFFERENT value, not a different spelling"""
+        toks = cstmt.tokenize(e)
+        return bool(toks) and all((cstmt.IDENT.match(t) and t in known) or re.match(r"[\d.]", t) or t in ("+", "-", "*", "/", "(", ")", "&") for t in toks) \
+            and not any(cstmt.IDENT.match(t) and toks[j + 1:j + 2] == ["("] for j, t in enumerate(toks))
+    want_c = ["cv_mem_", DT, "cv_y_", "&" + (T or "?"), "CV_NORMAL"]
+    want_h = [cv[0], AB, DT, T]
+    differs = [(w, g) for w, g in list(zip(want_c, ca))[1:2] + (list(zip(want_h, ha)) if len(ha) == 4 else []) if w != g]
+    key = f"{label}:Solve:HandleError receives the flag"
+    if ok:
+        ctx.ok("R2", key, (CV, 0), f"flag = HandleError({cv[0]}, {AB}, {DT}, {T}) right after {cv[0]} = CVode(cv_mem_, {DT}, cv_y_, &{T}, ..)")
+    elif cvi < hei and T is not None and len(ca) == 5 and len(ha) == 4 and ca[0] == "cv_mem_" and ca[2] == "cv_y_" and ca[4] == "CV_NORMAL" \
+            and (F.written_between({cv[0], T, DT}, cvi, hei) or (differs and all(plain(g) for w, g in differs))):
+        # positive evidence: every argument is understood and one of them is another value (a stale local, a literal), or the
+        # flag / time / interval is overwritten between the two calls
+        ctx.bad("R2", key, (CV, 0), f"flag = HandleError({cv[0]}, {AB}, {DT}, {T}) right after {cv[0]} = CVode(cv_mem_, {DT}, cv_y_, &{T}, ..)",
+                expected="the flag, the state, the interval and the time CVode reached", found=f"CVode({', '.join(ca)}) then HandleError({', '.join(ha)})")
+    else:
+        ctx.unrec("R2", key, (CV, 0), f"the hand-over from CVode to HandleError is not in a shape this rule understands: CVode({', '.join(ca)}) then HandleError({', '.join(ha)})")
     FL = he[0]
     rets = [s for s, c in F.seq if s[0] == "return"]
     ident = bool(rets) and all(cstmt.value(rets[-1][1], {FL: x, **CONSTS}) == x for x in (0, 1)) and not F.written_between({FL}, hei, F.pos[id(rets[-1])])
     rest = all(cstmt.value(r[1], {FL: 1, **CONSTS}) == 1 for r in rets)
-    ctx.check(ident and rest, "R2", f"{label}:Solve:returns HandleError's result", (CV, 0), f"Solve returns `{FL}`", found=str([cstmt.txt(r[1]) for r in rets]))
-    logs = [(x, c) for x, c in F.seq if x[0] == "expr" and "ab_init_" in x[1] and "fprintf" in x[1]]
-    ok = bool(logs)
+    if not rets or any(cstmt.value(r[1], {FL: x, **CONSTS}) is None for r in rets for x in (0, 1)):
+        ctx.unrec("R2", f"{label}:Solve:returns HandleError's result", (CV, 0), f"cannot evaluate what Solve returns: {[cstmt.txt(r[1]) for r in rets]}")
+    else:
+        ctx.check(ident and rest, "R2", f"{label}:Solve:returns HandleError's result", (CV, 0), f"Solve returns `{FL}`", found=str([cstmt.txt(r[1]) for r in rets]))
+    OUT = ("fprintf", "fputs", "fwrite", "printf", "puts")
+    logs = [(x, c) for x, c in F.seq if x[0] == "expr" and "ab_init_" in x[1] and any(o in x[1] for o in OUT)]
+    ok, unsure = bool(logs), False
     for x, c in logs:
         # tests made before the result existed (the early returns of the set-up calls) say nothing about it
         g = [y for y in _guards(F, c, x, keep=(FL,)) if y[0] == "if" and F.pos.get(id(y[3]), 0) > hei]
-        ok = ok and cstmt.guards_truth(g, {FL: 1, **CONSTS}) is True and cstmt.guards_truth(g, {FL: 0, **CONSTS}) is False
-    ctx.check(ok, "R2", f"{label}:Solve:initial state logged on failure", (CV, 0), f"ab_init_ is written to the error file exactly under `{FL} == NAUNET_FAIL`")
-    saved = [F.pos[id(s)] for s, c in F.seq for d, src, n in (cstmt.copies(s) or []) if s[0] in ("for", "expr") and d == "ab_init_" and src == AB and n == "NEQUATIONS"]
-    ctx.check(bool(saved) and min(saved) < cvi and not F.written_between({AB}, min(saved), cvi), "R3", f"{label}:Solve:initial state saved", (CV, 0),
-              "ab_init_ (and ab_tmp_) are copies of the state taken before the first CVode call")
+        t1, t0_ = cstmt.guards_truth(g, {FL: 1, **CONSTS}), cstmt.guards_truth(g, {FL: 0, **CONSTS})
+        unsure = unsure or t1 is None or t0_ is None
+        ok = ok and t1 is True and t0_ is False
+    key = f"{label}:Solve:initial state logged on failure"
+    # without a recognised log statement: a violation only when what Solve does after HandleError is understood -- plain stdio
+    # calls and nothing that could do the logging elsewhere (a call of another function, a stream, a mention of ab_init_)
+    tail = [x for x, c in F.seq if F.pos[id(x)] > hei and x[0] in ("expr", "if", "while", "for", "return")]
+    foreign = [t for x in tail for pt in ([x[1]] if x[0] != "for" else [x[1], x[2], x[3]]) for j, t in enumerate(pt)
+               if (cstmt.IDENT.match(t) and pt[j + 1:j + 2] == ["("] and t not in OUT + ("fflush", "CVodeFree", "sizeof", "if", "for", "while") and t not in cstmt.CAST_TYPES) or t in ("<<", "ab_init_")]
+    if ok:
+        ctx.ok("R2", key, (CV, 0), f"ab_init_ is written to the error file exactly under `{FL} == NAUNET_FAIL`")
+    elif (logs and not unsure) or (not logs and not foreign):
+        ctx.bad("R2", key, (CV, 0), f"ab_init_ is written to the error file exactly under `{FL} == NAUNET_FAIL`",
+                found="no statement that prints ab_init_" if not logs else "the statement that prints ab_init_ does not run exactly when the result is NAUNET_FAIL")
+    else:
+        ctx.unrec("R2", key, (CV, 0), "how (and under which test) the initial state is logged after HandleError is not understood" + (f": {sorted(set(foreign))[:4]}" if foreign else ""))
+    into = [(F.pos[id(s)], src, n) for s, c in F.seq for d, src, n in (cstmt.copies(s) or []) if s[0] in ("for", "expr") and d == "ab_init_"]
+    saved = [i for i, src, n in into if src == AB and n == "NEQUATIONS"]
+    key = f"{label}:Solve:initial state saved"
+    if saved and min(saved) < cvi and not F.written_between({AB}, min(saved), cvi):
+        ctx.ok("R3", key, (CV, 0), "ab_init_ (and ab_tmp_) are copies of the state taken before the first CVode call")
+    elif into or saved or not any("ab_init_" in pt for x, c in F.seq if F.pos[id(x)] < cvi for pt in x[1:] if isinstance(pt, list) and (not pt or isinstance(pt[0], str))):
+        # a recognised copy into ab_init_ from something else / too late / of a state written since, or ab_init_ not touched at all before CVode
+        ctx.bad("R3", key, (CV, 0), "ab_init_ (and ab_tmp_) are copies of the state taken before the first CVode call",
+                found=f"copies into ab_init_: {[(src, n) for i, src, n in into]}" if into else "ab_init_ is not written before the CVode call")
+    else:
+        ctx.unrec("R3", key, (CV, 0), "ab_init_ is written before the CVode call in a way this rule does not recognise as a copy of the whole state")
 
 
 def _r2_r3(ctx):
@@ -1062,13 +1124,26 @@ def _r4(ctx):
         first_test = min([F.pos.get(id(g[3]), 0) for g in ifs] or [0])
         cpos = [i for i, nm in incs if nm == C]
         uncond = [i for i in cpos if not [g for g in F.seq[i][1] if g[0] in ("if", "for", "while", "try", "catch")]]
-        ctx.check(bool(uncond) and len(cpos) == 1, "R4", "Observer:counts every step", (ODE, 0), f"{C} is incremented on every observer call, unconditionally")
+        if len(cpos) == 1 and (uncond or all(g[0] == "if" for g in F.seq[cpos[0]][1])):
+            ctx.check(bool(uncond), "R4", "Observer:counts every step", (ODE, 0), f"{C} is incremented on every observer call, unconditionally",
+                      found=f"{C} is only incremented under a test")
+        else:
+            ctx.unrec("R4", "Observer:counts every step", (ODE, 0), f"{C} is incremented at {len(cpos)} places / inside a loop: cannot tell whether every observer call is counted once")
         ctx.check(bool(cpos) and (max(cpos) < first_test or (max(cpos) == first_test and max(cpos) in incond)), "R4", "Observer:counts before testing", (ODE, 0), "the call being observed is counted before the budget is tested",
                   found="the budget is compared with the count of the previous call: one step more than the budget is taken")
     if thrown is None:
         inc = any(not [g for g in F.seq[i][1] if g[0] == "if"] for i, nm in incs)
-        ctx.check(inc, "R4", "Observer:counts every step", (ODE, 0), "step_ is incremented on every observer call, unconditionally")
-    ctx.check(thrown is not None, "R4", "Observer:throws", (ODE, 0), "exceeding the budget raises an exception")
+        ctx.check(inc, "R4", "Observer:counts every step", (ODE, 0), "step_ is incremented on every observer call, unconditionally") if incs else None
+        # no `throw` in the observer (helpers of the file inlined): a violation when the body is understood -- nothing is called that
+        # could raise on the observer's behalf
+        calls = sorted({t for x, c in F.seq for pt in x[1:] if isinstance(pt, list) and (not pt or isinstance(pt[0], str)) for j, t in enumerate(pt)
+                        if cstmt.IDENT.match(t) and pt[j + 1:j + 2] == ["("] and t not in cstmt.NO_THROW_CALLS and t not in cstmt.CAST_TYPES and t not in ("if", "for", "while", "sizeof")})
+        if calls:
+            ctx.unrec("R4", "Observer:throws", (ODE, 0), f"the observer does not throw itself and calls {calls[:4]}: cannot tell whether exceeding the budget raises an exception")
+        else:
+            ctx.bad("R4", "Observer:throws", (ODE, 0), "exceeding the budget raises an exception", found="no throw statement in the observer")
+    else:
+        ctx.ok("R4", "Observer:throws", (ODE, 0), "exceeding the budget raises an exception")
     sv = _func(ctx, OD, {}, "Naunet::Solve")
     if sv is None:
         ctx.missing("R4", "odeint Solve", (OD, 0), "Solve not found")
@@ -1090,27 +1165,50 @@ def _r4(ctx):
         integ_st = [x for x, _ in cstmt.walk(t[1]) if x[0] == "expr" and "integrate_adaptive" in x[1]]
         integ = [x[1] for x in integ_st]
         caught = ["".join(d) for d, b in t[2]]
-        type_ok = thrown is not None and any(thrown in c or "std::exception" in c or c == "..." for c in caught)
-        ctx.check(type_ok, "R4", "Solve catches what the observer throws", (OD, 0),
-                  f"the observer throws {thrown}, which the handler catches" if type_ok else
-                  f"the observer throws `{thrown}` but Solve only catches {caught}: exceeding the step budget escapes Solve instead of returning NAUNET_FAIL",
-                  expected=f"catch (const {thrown} &e)", found=str(caught))
+        # the standard exception classes and their bases (<stdexcept>); a type outside the table is judged by its name only
+        BASES = {"exception": (), "logic_error": ("exception",), "runtime_error": ("exception",), "bad_alloc": ("exception",),
+                 "invalid_argument": ("logic_error", "exception"), "domain_error": ("logic_error", "exception"), "length_error": ("logic_error", "exception"),
+                 "out_of_range": ("logic_error", "exception"), "range_error": ("runtime_error", "exception"), "overflow_error": ("runtime_error", "exception"),
+                 "underflow_error": ("runtime_error", "exception"), "system_error": ("runtime_error", "exception")}
+        tname = (thrown or "").replace("std::", "")
+        def caught_type(d):
+            ids = [x for x in d if x not in ("const", "&", "*", "&&", "std", "::", "volatile")]
+            return "..." if "".join(d) == "..." else "".join(ids[:-1]) if len(ids) > 1 else "".join(ids)
+        cnames = [caught_type(d) for d, b in t[2]]
+        if thrown is None:
+            pass
+        elif any(c == "..." or c == tname or c in BASES.get(tname, ()) for c in cnames):
+            ctx.ok("R4", "Solve catches what the observer throws", (OD, 0), f"the observer throws {thrown}, which the handler catches")
+        elif tname in BASES and all(c in BASES for c in cnames):
+            ctx.bad("R4", "Solve catches what the observer throws", (OD, 0),
+                    f"the observer throws `{thrown}` but Solve only catches {caught}: exceeding the step budget escapes Solve instead of returning NAUNET_FAIL",
+                    expected=f"catch (const {thrown} &e)", found=str(caught))
+        else:
+            ctx.unrec("R4", "Solve catches what the observer throws", (OD, 0), f"cannot relate the thrown type `{thrown}` to the caught type(s) {caught} (not standard exception classes)")
         OBS = None
         if integ:
             e = integ[0]
             k = e.index("integrate_adaptive")
             args = cstmt._top_split(e[k + 2:-1], (",",)) if e[k + 1:k + 2] == ["("] and e[-1] == ")" else []
             a = [cstmt.norm(x) for x in args]
+            if len(a) == 7 and re.fullmatch(r"(?:std|boost)::ref\((\w+)\)", a[6]):
+                a[6] = re.fullmatch(r"(?:std|boost)::ref\((\w+)\)", a[6]).group(1)      # the observer handed over by reference is that observer
             back = [src for s, c in SF.seq if SF.pos[id(s)] > SF.pos[id(t)] and s[0] in ("for", "expr") for d, src, n in (cstmt.copies(s) or []) if d == STATE]
             ipos = SF.pos.get(id(integ_st[0]), 0)
 
             def named(x):
                 """an argument with once-defined locals (`const double t_end = dt;`) replaced by their definitions"""
                 return SF.expand(x, ipos)
-            args_ok = len(a) == 7 and cstmt.IDENT.match(a[2]) and cstmt.value(named(args[3]), CONSTS) == 0 and cstmt.same_value(" ".join(named(args[4])), DT) is True \
-                and cstmt.same_value(" ".join(named(args[5])), DT) is True and cstmt.IDENT.match(a[6]) and (not back or a[2] in back)
-            ctx.check(bool(args_ok), "R4", "integrate over [0, dt] with the observer", (OD, 0), f"integrate_adaptive(.., y, 0.0, {DT}, {DT}, observer)", found=cstmt.txt(e)[-90:])
-            OBS = a[6] if len(a) == 7 else None
+            if len(a) == 7 and cstmt.IDENT.match(a[2]) and cstmt.IDENT.match(a[6]):
+                parts_ = [cstmt.value(named(args[3]), CONSTS), cstmt.same_value(" ".join(named(args[4])), DT), cstmt.same_value(" ".join(named(args[5])), DT)]
+                if parts_[0] is None or None in parts_[1:]:
+                    ctx.unrec("R4", "integrate over [0, dt] with the observer", (OD, 0), f"cannot follow the interval handed to integrate_adaptive: {cstmt.txt(e)[-90:]}")
+                else:
+                    args_ok = parts_[0] == 0 and parts_[1] is True and parts_[2] is True and (not back or a[2] in back)
+                    ctx.check(bool(args_ok), "R4", "integrate over [0, dt] with the observer", (OD, 0), f"integrate_adaptive(.., y, 0.0, {DT}, {DT}, observer)", found=cstmt.txt(e)[-90:])
+            else:
+                ctx.unrec("R4", "integrate over [0, dt] with the observer", (OD, 0), f"integrate_adaptive is not called with (stepper, system, state, start, end, first step, observer): {cstmt.txt(e)[-90:]}")
+            OBS = a[6] if len(a) == 7 and cstmt.IDENT.match(a[6]) else None
         else:
             ctx.unrec("R4", "integrate over [0, dt] with the observer", (OD, 0), "no integrate_adaptive call inside the try block")
         # ---- what Solve returns without / with a caught exception
@@ -1161,7 +1259,31 @@ def _r4(ctx):
         # the budget may be handed over under a local name (`const int budget = mxsteps_;`)
         decl = [d[1][:d[1].index(OBS) + 1] + [t for t in SF.expand(d[1][d[1].index(OBS) + 1:], SF.pos[id(d)]) if t not in ("(", ")", "{", "}")] for d in decl]
         obs = any(cstmt.norm(d) in (f"Observer{OBS}mxsteps_", f"Observer{OBS}=Observermxsteps_", f"auto{OBS}=Observermxsteps_") for d in decl)
-        ctx.check(obs, "R4", "observer gets the step budget", (OD, 0), "Observer observer(mxsteps_): a fresh observer per call, built from the configured budget", found=str([cstmt.txt(d) for d in decl]))
+        key = "observer gets the step budget"
+        shown = str([cstmt.txt(d) for d in decl])
+        if obs:
+            ctx.ok("R4", key, (OD, 0), "Observer observer(mxsteps_): a fresh observer per call, built from the configured budget")
+        elif OBS is None:
+            ctx.unrec("R4", key, (OD, 0), "cannot see which observer is handed to integrate_adaptive")
+        elif not decl:
+            # the observer handed to the integrator is not built in Solve at all: it is a member / global built once
+            if OBS in cstmt.declared_locals(sb) or OBS in (sv.params or ()):
+                ctx.unrec("R4", key, (OD, 0), f"`{OBS}` is a local of Solve but not declared as an Observer in a way this rule reads")
+            else:
+                ctx.bad("R4", key, (OD, 0), "Observer observer(mxsteps_): a fresh observer per call, built from the configured budget", found=f"`{OBS}` is not built in Solve: the budget (and count) of an earlier call stay in force")
+        else:
+            d = decl[0]
+            rest = [t for t in d[d.index(OBS) + 1:] if t not in ("=", "Observer")]
+            simple = bool(rest) and all(cstmt.IDENT.match(t) or re.match(r"[\d.]", t) or t in "+-*/" for t in rest) and not any(t in ("std", "make_unique", "make_shared", "new") for t in d)
+            if "static" in d or "thread_local" in d or (simple and rest != ["mxsteps_"] and (len(rest) > 1 or not cstmt.IDENT.match(rest[0]))):
+                # positive evidence: built once for all calls, or from a number / an expression other than the configured budget
+                ctx.bad("R4", key, (OD, 0), "Observer observer(mxsteps_): a fresh observer per call, built from the configured budget", found=shown)
+            elif simple and len(rest) == 1 and cstmt.IDENT.match(rest[0]) and rest[0] not in cstmt.declared_locals(sb) and rest[0] not in (sv.params or ()):
+                ctx.ok("R4", key, (OD, 0), f"a fresh observer per call, built from the member `{rest[0]}` (R7: set by Init / Reset from their budget parameter)")
+            elif simple and len(rest) == 1:
+                ctx.bad("R4", key, (OD, 0), "Observer observer(mxsteps_): a fresh observer per call, built from the configured budget", found=shown)
+            else:
+                ctx.unrec("R4", key, (OD, 0), f"how the observer is built is not understood: {shown}")
 
 
 def _r7_budget(ctx):
@@ -1282,10 +1404,17 @@ def _r5(ctx):
             envs = [{**CONSTS, "__solve": r, **({var: r} if var else {})} for r in (0, 1)]
             if cstmt.guards_truth(ifs, envs[1]) is True and cstmt.guards_truth(ifs, envs[0]) is False:
                 tested = True
-        ctx.check(bool(tested), "R5", f"{label}:PyWrapSolve tests Solve", (rel, 0),
-                  "the Python wrapper raises when Solve returns NAUNET_FAIL" if tested else
-                  "the Python wrapper drops the result of Solve: a failed integration returns the unfinished state as if it had succeeded",
-                  expected="int flag = Solve(..); if (flag == NAUNET_FAIL) throw ..", found="; ".join(cstmt.txt(x[1]) for x in call))
+        key = f"{label}:PyWrapSolve tests Solve"
+        dropped = [x for x in call if cstmt.sole_call(x[1]) and cstmt.sole_call(x[1])[0] == "Solve"]
+        unread = var is not None and call and not any(var in pt for x, c in F.seq if F.pos[id(x)] > F.pos[id(call[0])] for pt in x[1:] if isinstance(pt, list) and (not pt or isinstance(pt[0], str)))
+        if tested:
+            ctx.ok("R5", key, (rel, 0), "the Python wrapper raises when Solve returns NAUNET_FAIL")
+        elif dropped or unread or not call:
+            # positive evidence: the result is thrown away (`Solve(..);`), stored and never read, or Solve is not called
+            ctx.bad("R5", key, (rel, 0), "the Python wrapper drops the result of Solve: a failed integration returns the unfinished state as if it had succeeded",
+                    expected="int flag = Solve(..); if (flag == NAUNET_FAIL) throw ..", found="; ".join(cstmt.txt(x[1]) for x in call))
+        else:
+            ctx.unrec("R5", key, (rel, 0), "the result of Solve is used, but not in a `throw` under a test this rule can evaluate: " + "; ".join(cstmt.txt(x[1]) for x in call)[:160])
 
 
 MUTANTS = [
